@@ -23,8 +23,18 @@ def has_returns(body: list) -> bool:
     return False
 
 
+def is_generator(body: list) -> bool:
+    for expr in traverse(body=body, skip_try=False):
+        if isinstance(expr, TOKENS.YIELD + TOKENS.YIELD_FROM):
+            return True
+    return False
+
+
 @get_returns.register(*TOKENS.RETURN)
-def handle_return(expr: Union[ast.Return, astroid.Return]) -> Token | None:
+def handle_return(expr: Union[ast.Return, astroid.Return], generator: bool = False) -> Token | None:
+    # contracts of a generator validate what it yields, not what it returns
+    if generator:
+        return None
     if expr.value is None:
         return Token(value=None, line=expr.lineno, col=expr.col_offset)
     value = get_value(expr=expr.value)
@@ -34,7 +44,7 @@ def handle_return(expr: Union[ast.Return, astroid.Return]) -> Token | None:
 
 
 @get_returns.register(*TOKENS.YIELD)
-def handle_yield(expr: Union[ast.Yield, astroid.Yield]) -> Token | None:
+def handle_yield(expr: Union[ast.Yield, astroid.Yield], **kwargs) -> Token | None:
     if expr.value is None:
         return Token(value=None, line=expr.lineno, col=expr.col_offset)
     value = get_value(expr=expr.value)
